@@ -108,6 +108,9 @@ SAFE_FAMILIES = [_re.compile(x) for x in (
     r'leading_zeros|trailing_zeros|count_ones|count_zeros|swap_bytes|rotate_left|rotate_right|min|max|is_power_of_two|abs_diff)$',
     r'^digest::(Digest::(new|update|finalize|digest|output_size|chain_update)|core_api::BlockSizeUser::block_size|FixedOutput::finalize_fixed|Update::update)$',
     r'^core::(cmp::Ord::cmp|cmp::PartialOrd::partial_cmp)$',
+    # generic-array's functional combinators: both operands have the same type-level length, so they are total; the closure
+    # they run is a local body whose own sites are enumerated
+    r'^generic_array::functional::(FunctionalSequence|MappedGenericSequence)::(zip|map|fold)$',
 )]
 
 
@@ -313,7 +316,7 @@ def const_of(t):
     return None
 
 
-def guard_equal_len(a, facts, bi, param_term):
+def guard_equal_len(a, facts, bi, param_term, explicit=True):
     """constant N such that a dominating `enforce_equal_len(N, len(param))?` success edge guards block bi"""
     for gbi, t, c in a.calls(lambda c: c.get('key') == 'util::enforce_equal_len'):
         if a.arg_val(gbi, 1) != ('len', param_term):
@@ -338,7 +341,7 @@ def guard_equal_len(a, facts, bi, param_term):
                 if d[0] == 'discr' and d[1][0] == 'try' and d[1][1][0] == 'call' and d[1][1][3] == gbi:
                     if a.cfg.edge_dominates(b2, switch_edge(t2, 0), bi):
                         return n
-    if param_term[0] == 'param':
+    if explicit and param_term[0] == 'param':
         eg = explicit_len_guard(a, facts, param_term[1])
         if eg and a.cfg.edge_dominates(eg['eq_edge'][0], eg['eq_edge'][1], bi):
             return len_value(facts, eg['n'])
@@ -379,6 +382,171 @@ def len_assert_of(a, bi, param):
             eq_edge = switch_edge(t2, 1 if d[1] == 'Eq' else 0)
             if a.cfg.edge_dominates(b2, eq_edge, bi):
                 return n
+    return None
+
+
+ISIZE_MAX = (1 << 63) - 1
+_REL_OPS = ('Eq', 'Ne', 'Lt', 'Le', 'Gt', 'Ge')
+
+
+def _ladd(x, y, k=1):
+    co = dict(x[0])
+    for at, c in y[0].items():
+        co[at] = co.get(at, 0) + k * c
+        if co[at] == 0:
+            del co[at]
+    return co, x[1] + k * y[1]
+
+
+def lin(a, facts, t, point, depth=0):
+    """a usize-valued term as a linear form over immutable lengths: ({atom: coefficient}, constant), or None.
+    Atoms: ('sym', type-level length) — a fixed number within one instantiation — and ('len', slice reference) for a
+    slice parameter (a slice reference never changes its length).  Sub-slices are expanded: len(x[lo..hi]) = hi - lo,
+    which is what the slicing operation (a panic site of its own, reached first) guarantees."""
+    if depth > 12 or not isinstance(t, tuple):
+        return None
+    c = const_of(t) if t[0] == 'const' else None
+    if c is not None and not isinstance(c, bool):
+        return {}, c
+    if t[0] == 'bin' and t[1] in ('Add', 'Sub', 'AddUnchecked', 'SubUnchecked'):
+        x, y = lin(a, facts, t[2], point, depth + 1), lin(a, facts, t[3], point, depth + 1)
+        if x is None or y is None:
+            return None
+        return _ladd(x, y, 1 if t[1].startswith('Add') else -1)
+    if t[0] == 'bin' and t[1] == 'Mul':
+        for k, x in ((t[2], t[3]), (t[3], t[2])):
+            kc = const_of(k) if k[0] == 'const' else None
+            if kc is not None and not isinstance(kc, bool):
+                v = lin(a, facts, x, point, depth + 1)
+                return None if v is None else ({at: kc * c2 for at, c2 in v[0].items() if kc}, kc * v[1])
+        return None
+    if t[0] == 'field' and t[1] == '0' and t[2][0] == 'variant' and t[2][1] == 'Some':
+        from .common import checked_sub_some
+        cs = checked_sub_some(a, facts, t)
+        if cs is not None:
+            x, y = lin(a, facts, cs[0], point, depth + 1), lin(a, facts, cs[1], point, depth + 1)
+            return None if x is None or y is None else _ladd(x, y, -1)
+    if t[0] == 'field':
+        # the position of a loop over buffers of known length: one unknown with its range
+        b = len_term_bounds(a, facts, t, point)
+        if b and isinstance(b[0], int) and isinstance(b[1], int):
+            return {('var', strip_sites(t), b[0], b[1]): 1}, 0
+        return None
+    if t[0] == 'call' and (t[1] == 'Serializable::size' or t[1].endswith('::to_usize')):
+        from .common import len_value
+        v = len_value(facts, t) if len(t) > 4 else None
+        if isinstance(v, int):
+            return {}, v
+        if isinstance(v, str):
+            return {('sym', v): 1}, 0
+        return None
+    if t[0] == 'call' and t[1] == 'core::mem::size_of':
+        from .common import size_of_term
+        v = size_of_term(facts, t)
+        return None if v is None else ({}, v)
+    if t[0] == 'cast' and t[1] == 'IntToInt' and t[2] in _UWIDTH:
+        v = lin(a, facts, t[3], point, depth + 1)
+        if v is None:
+            return None
+        mx = (1 << _UWIDTH[t[2]]) - 1
+        rg = lin_range(facts, v)
+        if rg is not None and 0 <= rg[0] and rg[1] <= mx:
+            return v
+        # a narrowing cast under a dominating comparison that excludes values above the target's maximum
+        if point not in (None, 'entry'):
+            from .common import cmp_guard
+            for ty in ('usize', 'u64', 'u32'):
+                g = cmp_guard(a, point[0], t[3], ('const', ty, mx))
+                if g['guards'] >= 1 and not g['gt']:
+                    return v
+        return None
+    if t[0] == 'len':
+        r = t[1]
+        if r[0] == 'addr' and r[2] and r[2][-1][0] == 'slice':
+            lo, hi = r[2][-1][1], r[2][-1][2]
+            parent = ('addr', r[1], r[2][:-1], r[3])
+            if not parent[2] and parent[1][0] == 'pointee':
+                parent = parent[1][1]
+            hv = lin(a, facts, hi, point, depth + 1) if hi is not None else lin(a, facts, ('len', parent), point, depth + 1)
+            lv = lin(a, facts, lo, point, depth + 1) if lo is not None else ({}, 0)
+            return None if hv is None or lv is None else _ladd(hv, lv, -1)
+        n = ref_len(a, facts, r, point)
+        if isinstance(n, int):
+            return {}, n
+        if isinstance(n, str):
+            return {('sym', n): 1}, 0
+        r0 = strip_sites(r)
+        if r0[0] == 'param' and a.body.local_ty(r0[1]).startswith('&') and '[' in a.body.local_ty(r0[1]):
+            return {('len', r0): 1}, 0
+        return None
+    return None
+
+
+def lin_range(facts, v):
+    """(min, max) of a linear form over all values of its atoms (type-level lengths over all impls; slice lengths in
+    0..=isize::MAX); None if some atom is unbounded"""
+    lo = hi = v[1]
+    for at, c in v[0].items():
+        if at[0] == 'sym':
+            b = sym_bounds(facts, at[1])
+            if not b or not isinstance(b[0], int) or not isinstance(b[1], int):
+                return None
+        elif at[0] == 'var':
+            b = (at[2], at[3])
+        else:
+            b = (0, ISIZE_MAX)
+        lo += c * (b[0] if c > 0 else b[1])
+        hi += c * (b[1] if c > 0 else b[0])
+    return lo, hi
+
+
+def lin_holds(a, facts, rel, x, y, point):
+    """is `x rel y` true for every value of the lengths involved?  -> explanation or None"""
+    lx, ly = lin(a, facts, x, point), lin(a, facts, y, point)
+    if lx is None or ly is None:
+        return None
+    d = _ladd(lx, ly, -1)
+    if rel == 'Eq':
+        return 'both sides are the same linear form over the lengths involved' if not d[0] and d[1] == 0 else None
+    rg = lin_range(facts, d)
+    if rg is None:
+        return None
+    ok = {'Le': rg[1] <= 0, 'Lt': rg[1] < 0, 'Ge': rg[0] >= 0, 'Gt': rg[0] > 0, 'Ne': rg[1] < 0 or rg[0] > 0}.get(rel)
+    return 'lhs - rhs ranges over [%d, %d] for all lengths' % rg if ok else None
+
+
+def _deref_loads(v):
+    v = unref(v)
+    while v[0] == 'load' and not v[2]:
+        v = unref(v[1])
+    return v
+
+
+def assert_condition(a, bi):
+    """the comparison that sends control to the diverging block bi when it fails: (rel, x, y, switch block) with
+    `x rel y` the condition under which bi is NOT entered; None if bi is not guarded by exactly one comparison"""
+    chain = a.cfg.dom_chain(bi)
+    for b2 in reversed(chain[:-1]):
+        t2 = a.body.blocks[b2]['term']
+        if t2['k'] != 'switch':
+            continue
+        d = a.val_op(t2['discr'], a.term_point(b2))
+        neg = False
+        while d[0] == 'un' and d[1] == 'Not':
+            d = d[2]
+            neg = not neg
+        if not (d[0] == 'bin' and d[1] in _REL_OPS):
+            return None
+        t_true, t_false = switch_edge(t2, 1), switch_edge(t2, 0)
+        if t_true == t_false:
+            return None
+        to_bi_true = a.cfg.edge_dominates(b2, t_true, bi)
+        to_bi_false = a.cfg.edge_dominates(b2, t_false, bi)
+        if to_bi_true == to_bi_false:
+            return None
+        holds_when_skipped = (not to_bi_true) != neg        # value of the comparison on the path that avoids bi
+        rel = d[1] if holds_when_skipped else {'Eq': 'Ne', 'Ne': 'Eq', 'Lt': 'Ge', 'Ge': 'Lt', 'Le': 'Gt', 'Gt': 'Le'}[d[1]]
+        return rel, _deref_loads(d[2]), _deref_loads(d[3]), b2
     return None
 
 
@@ -451,6 +619,17 @@ def len_term_bounds(a, facts, t, point):
     return None
 
 
+def _depth_ok():
+    import sys
+    f = sys._getframe()
+    n = 0
+    while f is not None:
+        if f.f_code.co_name in ('ref_len', 'lin'):
+            n += 1
+        f = f.f_back
+    return n < 12
+
+
 def ref_len(a, facts, r, point):
     """type-level length of what reference term r points to: int | symbolic | None"""
     r0 = r
@@ -497,6 +676,13 @@ def ref_len(a, facts, r, point):
                     return None
                 if lo_b and hi_b and lo_b[0] == lo_b[1] and hi_b[0] == hi_b[1]:
                     return hi_b[0] - lo_b[0]
+                # hi - lo is the same constant at every position of a loop (`start..start + 2`)
+                if lo is not None and _depth_ok():
+                    lh, ll = lin(a, facts, hi, point), lin(a, facts, lo, point)
+                    if lh is not None and ll is not None:
+                        d = _ladd(lh, ll, -1)
+                        if not d[0] and d[1] >= 0:
+                            return d[1]
                 return None
             else:
                 return None
@@ -652,6 +838,10 @@ class Discharger:
                     g = cmp_guard(a, bi, x, mx)
                     if g['guards'] >= 1 and g['lt'] and not g['eq']:
                         return 'D5', 'x + 1 under a dominating comparison that excludes x == %s::MAX' % c[1]
+            lsum = lin(a, facts, ('bin', 'Add', l, r), p)
+            rg = lin_range(facts, lsum) if lsum is not None else None
+            if rg is not None and 0 <= rg[0] and rg[1] < (1 << 64):
+                return 'D8', 'sum of lengths in [%d, %d] < 2^64' % rg
             lb, rb = len_term_bounds(a, facts, l, p), len_term_bounds(a, facts, r, p)
             if lb and rb:
                 for x, y in ((lb, rb), (rb, lb)):
@@ -698,10 +888,24 @@ class Discharger:
         if name in ('to_vec', 'from_elem', 'extend_from_slice', 'with_capacity'):
             return 'T', 'allocation proportional to the input length (+Nt); failure aborts (outside the property)'
         if name == 'assert_failed':
-            return self.d_len_assert(key, a, s)
+            return self.d_len_assert(key, a, s) or self.d_linear_assert(key, a, s)
         if name == 'panic_fmt':
             return self.d_panic(key, a, s)
+        if name == 'panic':
+            return self.d_linear_assert(key, a, s)
         return None
+
+    def d_linear_assert(self, key, a, s):
+        """D10: an assertion whose condition is a linear identity / inequality over immutable lengths that holds for all of
+        them (what a `debug_assert!` of "the parts add up to the whole" states)"""
+        ac = assert_condition(a, s['bi'])
+        if ac is None:
+            return None
+        rel, x, y, sb = ac
+        why = lin_holds(a, self.facts, rel, x, y, a.term_point(sb))
+        if why is None:
+            return None
+        return 'D10', 'assertion %s %s %s always holds: %s' % (pp(x)[:60], rel, pp(y)[:60], why)
 
     def len_assert(self, a, bi, param):
         return len_assert_of(a, bi, param)
@@ -766,6 +970,12 @@ class Discharger:
             top = hi_b[1] if hi is not None else lo_b[1]
             if top <= nb[0] and (hi is None or lo_b[1] <= hi_b[0]):
                 return 'D1', 'range [%s..%s] within type-level length %s' % (lo_b[1] if lo is not None else '', hi_b[1] if hi is not None else '', n)
+        # lo..hi with lo <= hi and hi <= len decided relationally (both depend on the same loop position)
+        if nb and lo is not None and hi is not None and isinstance(nb[0], int):
+            w1 = lin_holds(a, facts, 'Le', lo, hi, p)
+            w2 = lin_holds(a, facts, 'Le', hi, ('const', 'usize', nb[0]), p)
+            if w1 and w2:
+                return 'D7', 'range lo..hi with lo <= hi (%s) and hi <= %d (%s)' % (w1, nb[0], w2)
         # [..N - unused.len()] of the concat idiom
         if lo is None and hi is not None and hi[0] == 'bin' and hi[1] == 'Sub' and isinstance(n, int) and const_of(hi[2]) == n and hi[3][0] == 'len':
             return 'D4', 'prefix [..%d - unused.len()] of the %d-byte buffer' % (n, n)
@@ -925,6 +1135,8 @@ class Discharger:
         facts = self.facts
         bi, t = s['bi'], s['term']
         p = a.term_point(bi)
+        if v[0] == 'agg' and v[1] == 'adt' and v[2] in ('core::result::Result::Ok', 'core::option::Option::Some'):
+            return 'D1', 'the unwrapped value is built as %s on every path that reaches the unwrap' % v[2].rsplit('::', 1)[-1]
         if v[0] != 'call':
             return None
         path = v[1]
